@@ -721,17 +721,17 @@ pub fn sim(reg: &PortableRegistry, roots: &[(MetaType, u32)]) -> Result<usize, S
         let got = reg.types.iter().find(|t| t.id == id).map(|t| &t.ty).ok_or_else(|| format!("id {id} does not resolve"))?;
         let want = m.type_info();
         let w = format!("entry {id} ({:?})", want.path.segments);
-        if got.path.segments.iter().map(|s| s.as_str()).collect::<Vec<_>>() != want.path.segments {
+        if got.path.segments.iter().map(|s| AsRef::<str>::as_ref(s)).collect::<Vec<_>>() != want.path.segments {
             return Err(format!("{w}: path {:?}", got.path.segments));
         }
-        if got.docs.iter().map(|s| s.as_str()).collect::<Vec<_>>() != want.docs {
+        if got.docs.iter().map(|s| AsRef::<str>::as_ref(s)).collect::<Vec<_>>() != want.docs {
             return Err(format!("{w}: docs {:?} vs {:?}", got.docs, want.docs));
         }
         if got.type_params.len() != want.type_params.len() {
             return Err(format!("{w}: {} parameters vs {}", got.type_params.len(), want.type_params.len()));
         }
         for (g, p) in got.type_params.iter().zip(want.type_params.iter()) {
-            if g.name.as_str() != p.name {
+            if AsRef::<str>::as_ref(&g.name) != p.name {
                 return Err(format!("{w}: parameter {:?} vs {:?}", g.name, p.name));
             }
             match (g.ty, p.ty) {
@@ -745,7 +745,7 @@ pub fn sim(reg: &PortableRegistry, roots: &[(MetaType, u32)]) -> Result<usize, S
                 return Err(format!("{w}: {} members vs {}", gf.len(), wf.len()));
             }
             for (g, f) in gf.iter().zip(wf.iter()) {
-                if g.name.as_deref() != f.name || g.type_name.as_deref() != f.type_name || g.docs.iter().map(|s| s.as_str()).collect::<Vec<_>>() != f.docs {
+                if g.name.as_ref().map(|s| AsRef::<str>::as_ref(s)) != f.name || g.type_name.as_ref().map(|s| AsRef::<str>::as_ref(s)) != f.type_name || g.docs.iter().map(|s| AsRef::<str>::as_ref(s)).collect::<Vec<_>>() != f.docs {
                     return Err(format!("{w}: member (name {:?}, type name {:?}, docs {:?}) vs (name {:?}, type name {:?}, docs {:?})", g.name, g.type_name, g.docs, f.name, f.type_name, f.docs));
                 }
                 queue.push((f.ty, g.ty.id));
@@ -759,7 +759,7 @@ pub fn sim(reg: &PortableRegistry, roots: &[(MetaType, u32)]) -> Result<usize, S
                     return Err(format!("{w}: {} variants vs {}", g.variants.len(), v.variants.len()));
                 }
                 for (gv, wv) in g.variants.iter().zip(v.variants.iter()) {
-                    if gv.name.as_str() != wv.name || gv.index != wv.index || gv.docs.iter().map(|s| s.as_str()).collect::<Vec<_>>() != wv.docs {
+                    if AsRef::<str>::as_ref(&gv.name) != wv.name || gv.index != wv.index || gv.docs.iter().map(|s| AsRef::<str>::as_ref(s)).collect::<Vec<_>>() != wv.docs {
                         return Err(format!("{w}: variant ({:?}, {}) vs ({:?}, {})", gv.name, gv.index, wv.name, wv.index));
                     }
                     fields(&gv.fields, &wv.fields)?;
